@@ -103,6 +103,8 @@ class Module:
             t._align = min(p, 16) if p > 8 else p
         elif t.k in ('ptr', 'func'):
             t._size = t._align = 8
+        elif t.k == 'fp':
+            t._size = t._align = {32: 4, 64: 8, 80: 16}[t.bits]
         elif t.k == 'array':
             t._size = s.size(t.elem) * t.n
             t._align = s.align(t.elem)
